@@ -1,11 +1,11 @@
 SPECIFICATION Spec
 CONSTANTS
-  ServerEnv = TRUE
+  ServerEnv = FALSE
   ClientEnv = TRUE
-  Lens <- L201
-  OutLens <- O3x2
+  Lens <- L12
+  OutLens <- O2
   TrailerLen <- NoTrailer
-  DeclaredLen = FALSE
+  DeclaredLen = TRUE
   Limit = 6
   Cuts = TRUE
   MaxWrite = 7
